@@ -103,6 +103,9 @@ pub struct Program {
     pub party_cap: u8,
     /// seed of the prover's external RNG
     pub seed: u64,
+    /// Pedersen bases shared by prover and verifier: 0 default, 1 random pair, 2 swapped
+    /// default pair, 3 value base = 2·generator
+    pub pc: u8,
 }
 
 #[derive(Clone, Debug, Default, PartialEq, Eq, Hash)]
@@ -273,11 +276,13 @@ pub struct GenCfg {
     pub big_gates: usize,
     /// maximum number of terms of a generated linear combination
     pub max_terms: usize,
+    /// wide programs: hundreds of constraints / commitments (few gates)
+    pub wide: bool,
 }
 
 impl GenCfg {
     pub fn small() -> GenCfg {
-        GenCfg { max_ops1: 14, max_closures: 3, max_ops2: 8, max_commits: 4, big_gates: 0, max_terms: 4 }
+        GenCfg { max_ops1: 14, max_closures: 3, max_ops2: 8, max_commits: 4, big_gates: 0, max_terms: 4, wide: false }
     }
 }
 
@@ -406,6 +411,30 @@ fn gen_kinds(ch: &mut Choices, n: usize, profile: usize, phase2: bool, commits_l
     v
 }
 
+/// mostly constraints, some commitments, a few gates
+fn gen_kinds_wide(ch: &mut Choices, n: usize, commits_left: &mut usize) -> Vec<Kind> {
+    let mut v = vec![];
+    for _ in 0..n {
+        let mut k = match ch.weighted(&[22, 2, 3, 3, 68, 2]) {
+            0 => Kind::Commit,
+            1 => Kind::Alloc,
+            2 => Kind::AllocMul,
+            3 => Kind::Mul,
+            4 => Kind::Constrain,
+            _ => Kind::TData,
+        };
+        if k == Kind::Commit {
+            if *commits_left == 0 {
+                k = Kind::Constrain;
+            } else {
+                *commits_left -= 1;
+            }
+        }
+        v.push(k);
+    }
+    v
+}
+
 fn count_gates(kinds: &[Kind]) -> usize {
     let mut n = 0;
     let mut pending = false;
@@ -432,6 +461,7 @@ pub fn gen_program(ch: &mut Choices, curve: Curve, cfg: &GenCfg) -> Program {
     let cap_v = Cap::gen(ch);
     let party_cap = 1 + ch.weighted(&[70, 20, 10]) as u8;
     let seed = ch.u16() as u64;
+    let pc = ch.weighted(&[70, 16, 7, 7]) as u8;
     let npre = ch.weighted(&[60, 30, 10]);
     let pre: Vec<(u8, Vec<u8>)> = (0..npre)
         .map(|_| {
@@ -445,8 +475,8 @@ pub fn gen_program(ch: &mut Choices, curve: Curve, cfg: &GenCfg) -> Program {
     // 4 exact power of two, 5 power of two plus one
     let profile = ch.weighted(&[46, 8, 10, 14, 12, 10]);
     let mut commits_left = cfg.max_commits;
-    let n_ops1 = ch.below(cfg.max_ops1 + 1);
-    let mut k1 = gen_kinds(ch, n_ops1, profile, false, &mut commits_left);
+    let n_ops1 = if cfg.wide { 200 + ch.below(cfg.max_ops1.max(201) - 200) } else { ch.below(cfg.max_ops1 + 1) };
+    let mut k1 = if cfg.wide { gen_kinds_wide(ch, n_ops1, &mut commits_left) } else { gen_kinds(ch, n_ops1, profile, false, &mut commits_left) };
     let n_closures = match profile {
         2 => 1 + ch.below(cfg.max_closures.max(1)),
         _ => {
@@ -597,7 +627,7 @@ pub fn gen_program(ch: &mut Choices, curve: Curve, cfg: &GenCfg) -> Program {
         let body: Vec<Op> = bodies[bi].iter().map(|k| fill_op(ch, &mut f, *k)).collect();
         ops[pos] = Op::Closure(body);
     }
-    Program { curve, tlabel, pre, ops, owned, cap_p, cap_v, party_cap, seed }
+    Program { curve, tlabel, pre, ops, owned, cap_p, cap_v, party_cap, seed, pc }
 }
 
 // ---------------------------------------------------------------------------------------
@@ -658,6 +688,7 @@ impl Program {
     }
     pub fn to_json(&self) -> Value {
         let s = self.shape();
+        let bases_name = ["default", "random pair", "swapped", "value base = 2*generator"][self.pc as usize % 4];
         json!({
             "curve": self.curve.name(),
             "transcript_label": String::from_utf8_lossy(TLABELS[self.tlabel as usize]),
@@ -667,6 +698,7 @@ impl Program {
             "cap_verifier": format!("{:?}", self.cap_v),
             "party_capacity": self.party_cap,
             "prover_seed": self.seed,
+            "pedersen_bases": bases_name,
             "gates": [s.n1, s.n2],
             "ops": self.ops.iter().map(op_json).collect::<Vec<_>>(),
         })
